@@ -264,8 +264,10 @@ decide(tc_t *t, int std, int rc, uint32_t e, uint32_t r, uint32_t s) {
 		return;
 	}
 	if (lib && !std) {
-		if (r < 1 || r >= t->n || s < 1 || s >= t->n)
-			snprintf(cl, sizeof(cl), "accepts-r-or-s-outside-1..n-1");
+		if (0 == r || 0 == s)
+			snprintf(cl, sizeof(cl), "accepts-r-or-s-equal-0");
+		else if (r >= t->n || s >= t->n)
+			snprintf(cl, sizeof(cl), "accepts-r-or-s-above-n-1");
 		else
 			snprintf(cl, sizeof(cl), "accepts-invalid-signature[%s]", reg);
 		vh_fail(cl, "library rc=0, the standard rejects (n=%u)", t->n);
@@ -620,8 +622,10 @@ bytes_verify_one(tc_t *t, int algo, int le, const char *what, const uint8_t *has
 			continue;
 		}
 		if (lib) {
-			if (r < 1 || r >= t->n || s < 1 || s >= t->n)
-				snprintf(cl, sizeof(cl), "accepts-r-or-s-outside-1..n-1");
+			if (0 == r || 0 == s)
+				snprintf(cl, sizeof(cl), "accepts-r-or-s-equal-0");
+			else if (r >= t->n || s >= t->n)
+				snprintf(cl, sizeof(cl), "accepts-r-or-s-above-n-1");
 			else
 				snprintf(cl, sizeof(cl), "accepts-invalid-signature[%s]", reg_name_of(reg, e));
 			vh_fail(cl, "library rc=0, the standard (e=%" PRIu64 ") rejects", e);
